@@ -23,7 +23,7 @@ CHECKS = {
         ref="4 C03",
     ),
     "C05": dict(
-        text="Bounded: for every import relation over trees of <= 5 (quick) / <= 6 (thorough) modules, seeded samples of partitions of pairwise-unrelated modules into 2-4 layers (all-named, all-regex, mixed; modules in no layer; layers the rule does not mention), all 12 access shapes + the two any-layer aliases and 1-2 object layers, the real LayerRule verdict equals the documented layer semantics (one z3 query per instance over the decision-tree summary).",
+        text="Bounded: for every import relation over trees of <= 5 (quick) / <= 6 (thorough) modules, seeded samples of partitions of pairwise-unrelated modules into 2-4 layers (all-named, all-regex, mixed; modules in no layer; layers the rule does not mention), all 12 access shapes + the two any-layer aliases and 1-2 object layers, the real LayerRule verdict equals the documented layer semantics AND every potential message record (module-level lines with layer tags, layer-level \"does not import / is not imported by\" lines per subset of object layers) appears exactly when the reference violating set says so (one z3 query per instance over the decision-tree summary). Quick tier is a stratified sample that always contains layers listing several modules.",
         note="Trusted: SymDiGraph stub (validated on sampled paths and every model), z3, reference formula vf/oracles/layers.py. Regex layers are anchored alternations of the listed names.",
         technique=SYMEX,
         ref="4 C05",
